@@ -31,6 +31,7 @@ from .introspect import (
     _function_name,
     get_assign_targets,
     python_builtin_names,
+    visit_inner_scope,
     getsource_class,
 )
 from .structures import (
@@ -378,6 +379,12 @@ class IntroVisitorIndirect(ast.NodeVisitor):
         self._call_stack = call_stack
         # All the calls to a load and subsequent function calls, ordered
         self.results: List[Union[FunctionIndirectInteractions, DDSPath]] = []
+
+    def visit_Lambda(self, node: ast.Lambda) -> Any:
+        visit_inner_scope(self, node, self._function_var_names)
+
+    def visit_FunctionDef(self, node: ast.FunctionDef) -> Any:
+        visit_inner_scope(self, node, self._function_var_names)
 
     def visit_Call(self, node: ast.Call) -> Any:
         # _logger.debug(f"visit: {node} {dir(node)} {pformat(node)}")
